@@ -533,12 +533,13 @@ func (ex *Exec) havocEffects(e *Effects) {
 }
 
 type loopSpec struct {
-	node   ast.Node // the loop statement
-	alias  string   // identifier the contract's header ranges over where the code now has an expression
-	ord    int
-	lc     *LoopContract
-	idx    Term
-	hasIdx bool
+	exprAlias string   // field chain the contract's header ranges over where the code ranges over something else
+	node      ast.Node // the loop statement
+	alias     string   // identifier the contract's header ranges over where the code now has an expression
+	ord       int
+	lc        *LoopContract
+	idx       Term
+	hasIdx    bool
 }
 
 func (ex *Exec) loopInvariants(ls *loopSpec, phase string, pos string) {
@@ -587,6 +588,7 @@ func (ex *Exec) beginLoop(node ast.Node, header string) *loopSpec {
 	ls := &loopSpec{ord: ex.loopOrd, node: node}
 	c := ex.F.Contract
 	if c == nil || len(c.Loops) == 0 {
+		ex.adoptOrphanLoop(ls, header)
 		return ls
 	}
 	h := normSpace(header)
@@ -630,6 +632,8 @@ func (ex *Exec) beginLoop(node ast.Node, header string) *loopSpec {
 			if ca, cb := reRangeHeader.FindStringSubmatch(strings.TrimSpace(lc.Header)), reRangeHeader.FindStringSubmatch(strings.TrimSpace(header)); ca != nil && cb != nil {
 				if isId := regexp.MustCompile(`^\w+$`).MatchString; isId(ca[3]) && !isId(cb[3]) {
 					ls.alias = ca[3]
+				} else if regexp.MustCompile(`^\w+(\.\w+)+$`).MatchString(ca[3]) && normSpace(ca[3]) != normSpace(cb[3]) {
+					ls.exprAlias = ca[3]
 				}
 			}
 			for a, b := range alignHeaders(lc.Header, header) {
@@ -644,7 +648,57 @@ func (ex *Exec) beginLoop(node ast.Node, header string) *loopSpec {
 		ex.P.bindProblem(ex.F.Name, fmt.Sprintf("%s: loop %d header mismatch: contract %q, code %q", ex.F.Name, ls.ord, lc.Header, header))
 	}
 	ls.ord = 100 + ex.loopOrd
+	ex.adoptOrphanLoop(ls, header)
 	return ls
+}
+
+// adoptOrphanLoop: a loop without contract in a function whose package has a contract for a function that no longer
+// exists: if that contract describes a loop of this shape, the function was inlined into this one and its invariant is
+// tried here (a guessed binding: a failing proof is undecided)
+func (ex *Exec) adoptOrphanLoop(ls *loopSpec, header string) {
+	if ls.lc != nil || ex.F.Contract == nil {
+		return
+	}
+	pk := ex.F.Name
+	if i := strings.Index(pk, "."); i >= 0 {
+		pk = pk[:i]
+	}
+	if len(ex.P.OrphanPkgs[pk]) == 0 {
+		return
+	}
+	for _, oc := range ex.P.Contracts {
+		if oc.bound || !strings.HasPrefix(oc.Func, pk+".") {
+			continue
+		}
+		var ords []int
+		for k := range oc.Loops {
+			ords = append(ords, k)
+		}
+		sort.Ints(ords)
+		for _, k := range ords {
+			lc := oc.Loops[k]
+			if lc.seen || lc.Header == "" || !sameLoopKind(lc.Header, header) {
+				continue
+			}
+			ren := alignHeaders(lc.Header, header)
+			if normSpace(lc.Header) != normSpace(header) && len(ren) == 0 {
+				continue
+			}
+			lc.seen = true
+			ls.lc = lc
+			for a, b := range ren {
+				if ex.loopRename == nil {
+					ex.loopRename = map[string]string{}
+				}
+				ex.loopRename[a] = b
+			}
+			if ex.P.ApproxBind == nil {
+				ex.P.ApproxBind = map[string][]string{}
+			}
+			ex.P.ApproxBind[ex.F.Name] = append(ex.P.ApproxBind[ex.F.Name], fmt.Sprintf("%s: loop %q adopts the invariant written for loop %d of %s, which no longer exists", ex.F.Name, header, k, oc.Func))
+			return
+		}
+	}
 }
 
 // codeLoopHeaders: the normalised headers of the loops of the function being executed, in source order
@@ -691,6 +745,36 @@ func sameLoopKind(a, b string) bool {
 // alignHeaders: identifiers of the contract's loop header and what stands in their place in the code's header
 func alignHeaders(contract, code string) map[string]string {
 	m := map[string]string{}
+	// token-wise: the two headers have the same shape and differ only in identifiers (for i := 0; i < size; i++ ~ for idx := 0; idx < count; idx++)
+	reTok := regexp.MustCompile(`[A-Za-z_][A-Za-z0-9_]*|[0-9]+|\S`)
+	ta, tb := reTok.FindAllString(contract, -1), reTok.FindAllString(code, -1)
+	if len(ta) == len(tb) {
+		isIdentTok := regexp.MustCompile(`^[A-Za-z_][A-Za-z0-9_]*$`).MatchString
+		ok := true
+		tm := map[string]string{}
+		for i := range ta {
+			if ta[i] == tb[i] {
+				continue
+			}
+			if !isIdentTok(ta[i]) || !isIdentTok(tb[i]) || ta[i] == "range" || tb[i] == "range" || ta[i] == "for" {
+				ok = false
+				break
+			}
+			if prev, seen := tm[ta[i]]; seen && prev != tb[i] {
+				ok = false
+				break
+			}
+			tm[ta[i]] = tb[i]
+		}
+		if ok {
+			for a, b := range tm {
+				if a != "_" && b != "_" {
+					m[a] = b
+				}
+			}
+			return m
+		}
+	}
 	isIdent := regexp.MustCompile(`^\w+$`).MatchString
 	ca, cb := reRangeHeader.FindStringSubmatch(strings.TrimSpace(contract)), reRangeHeader.FindStringSubmatch(strings.TrimSpace(code))
 	if ca != nil && cb != nil {
@@ -794,6 +878,12 @@ func (ex *Exec) rangeStmt(x *ast.RangeStmt, label string) {
 	ls := ex.beginLoop(x, hdr)
 	pos := ex.P.pos(x)
 	coll := ex.expr(x.X)
+	if ls.exprAlias != "" {
+		if ex.loopExprAlias == nil {
+			ex.loopExprAlias = map[string]Term{}
+		}
+		ex.loopExprAlias[ls.exprAlias] = coll
+	}
 	if ls.alias != "" {
 		if ex.loopAlias == nil {
 			ex.loopAlias = map[string]Term{}
